@@ -175,7 +175,59 @@ impl<'g> FnCx<'g> {
     }
 
     /// `if`/`match`/block used as a value whose branches do not leave the function: an expression-level term
+    /// `if c {a} else {b}` / `{ e }` whose parts are pure expressions: an expression-level term
+    fn pure_value(&mut self, e: &syn::Expr, expect: Option<&Ty>) -> R<Option<Val>> {
+        fn tail(b: &syn::Block) -> Option<&syn::Expr> {
+            match b.stmts.as_slice() {
+                [syn::Stmt::Expr(e, None)] => Some(e),
+                _ => None,
+            }
+        }
+        match strip_paren(e) {
+            syn::Expr::Block(b) if b.label.is_none() => match tail(&b.block) {
+                Some(t) => {
+                    let save = (self.tmp, self.scopes.clone());
+                    match self.expr(t, expect) {
+                        Ok(v) if v.steps.is_empty() => Ok(Some(v)),
+                        _ => {
+                            self.tmp = save.0;
+                            self.scopes = save.1;
+                            Ok(None)
+                        }
+                    }
+                }
+                None => Ok(None),
+            },
+            syn::Expr::If(i) if !matches!(&*i.cond, syn::Expr::Let(_)) => {
+                let (t, el) = match (tail(&i.then_branch), &i.else_branch) {
+                    (Some(t), Some((_, el))) => (t, &**el),
+                    _ => return Ok(None),
+                };
+                let save = (self.tmp, self.scopes.clone());
+                let c = self.expr(&i.cond, Some(&Ty::Bool));
+                let a = self.expr(t, expect);
+                let b = self.expr(el, expect);
+                match (c, a, b) {
+                    (Ok(c), Ok(a), Ok(b)) if c.steps.is_empty() && a.steps.is_empty() && b.steps.is_empty() => {
+                        let ty = self.u.unify(&a.ty, &b.ty)?;
+                        let p = c.prop.clone().unwrap_or_else(|| format!("{} = true", c.atom));
+                        Ok(Some(Val { steps: vec![], atom: format!("(if {} then {} else {})", p, a.atom, b.atom), prop: None, ty }))
+                    }
+                    _ => {
+                        self.tmp = save.0;
+                        self.scopes = save.1;
+                        Ok(None)
+                    }
+                }
+            }
+            _ => Ok(None),
+        }
+    }
+
     pub fn value_join(&mut self, e: &syn::Expr, expect: Option<&Ty>) -> R<Val> {
+        if let Some(v) = self.pure_value(e, expect)? {
+            return Ok(v);
+        }
         // each branch is compiled with a continuation that returns its value in the Res monad,
         // and the whole construct is bound once.
         let result_ty = std::cell::RefCell::new(None::<Ty>);
@@ -486,7 +538,9 @@ impl<'g> FnCx<'g> {
                 None => format!("{}.length", paren_atom(&base.atom)),
             };
             let t = self.fresh_tmp();
-            steps.push(Step::BindOk(t.clone(), format!("rsSlice {} {} {}", paren_atom(&base.atom), paren_atom(&lo), paren_atom(&hi))));
+            // a `str` can only be sliced on character boundaries (panic otherwise)
+            let f = if bty == Ty::Str { "rsStrSlice" } else { "rsSlice" };
+            steps.push(Step::BindOk(t.clone(), format!("{} {} {} {}", f, paren_atom(&base.atom), paren_atom(&lo), paren_atom(&hi))));
             return Ok(Val { steps, atom: t, prop: None, ty: bty });
         }
         let idx = self.expr(&i.index, Some(&Ty::usize()))?;
@@ -762,6 +816,23 @@ impl<'g> FnCx<'g> {
                 }
             }
         }
+        // external pure functions of this unit (explicit parameters)
+        if let Some((_, lean, ty)) = self.g.externs.iter().find(|(n, _, _)| *n == last).cloned() {
+            if let Ty::Fun(atys, rty) = ty {
+                if atys.len() != args.len() {
+                    return unsupported("extern call arity", c.span());
+                }
+                let mut steps = vec![];
+                let mut atoms = vec![];
+                for (a, t) in args.iter().zip(atys.iter()) {
+                    let v = self.expr(a, Some(t))?;
+                    self.u.unify(t, &v.ty)?;
+                    steps.extend(v.steps);
+                    atoms.push(paren_atom(&v.atom));
+                }
+                return Ok(Val { steps, atom: format!("({} {})", lean, atoms.join(" ")), prop: None, ty: *rty });
+            }
+        }
         // translated functions
         if let Some(sig) = self.g.fns.get(&last).cloned() {
             return self.emit_call(&sig, &args, c.span());
@@ -854,6 +925,9 @@ impl<'g> FnCx<'g> {
         }
         pats.extend(rebinds);
         let pat = if pats.is_empty() { "_".to_string() } else { tuple_text(&pats) };
+        for x in &sig.externs {
+            gen_args.push_str(&format!(" {}", x));
+        }
         let call = format!("{}{}{} {}", sig.lean, gen_args, if sig.fuel { " fuel" } else { "" }, arg_atoms.join(" "));
         // a callee returning `Result` hands the Result to the caller; we run it in the monad right away,
         // which is what `?` would do; a caller that inspects the Err case instead is not supported
@@ -1448,6 +1522,13 @@ impl<'g> FnCx<'g> {
             (Ty::Str, "chars", 0) => pure(steps, format!("(rsChars {})", paren_atom(&a)), Ty::list(Ty::Char)),
             (Ty::List(_), "peekable", 0) | (Ty::List(_), "into_iter", 0) => pure(steps, a, rty.clone()),
             (Ty::List(t), "peek", 0) => pure(steps, format!("{}.head?", paren_atom(&a)), Ty::opt((**t).clone())),
+            (Ty::Char, "is_ascii", 0) => pure(steps, format!("(decide ({} < 128))", a), Ty::Bool),
+            (Ty::Char, "is_ascii_alphabetic", 0) => pure(steps, format!("(rsIsAsciiAlphabetic {})", paren_atom(&a)), Ty::Bool),
+            (Ty::Char, "is_ascii_alphanumeric", 0) => pure(steps, format!("(rsIsAsciiAlphanumeric {})", paren_atom(&a)), Ty::Bool),
+            (Ty::Char, "is_ascii_digit", 0) => pure(steps, format!("(decide (48 ≤ {} ∧ {} ≤ 57))", a, a), Ty::Bool),
+            (Ty::Str, "char_indices", 0) => pure(steps, format!("(rsCharIndices {})", paren_atom(&a)), Ty::list(Ty::Tuple(vec![Ty::usize(), Ty::Char]))),
+            (Ty::Str, "split_whitespace", 0) => pure(steps, format!("(rsSplitWhitespace {})", paren_atom(&a)), Ty::list(Ty::Str)),
+            (Ty::List(t), "next", 0) => pure(steps, format!("{}.head?", paren_atom(&a)), Ty::opt((**t).clone())),
             (Ty::Char, "len_utf8", 0) => pure(steps, format!("(rsLenUtf8 {})", paren_atom(&a)), Ty::usize()),
             (Ty::Char, "len_utf16", 0) => pure(steps, format!("(rsLenUtf16 {})", paren_atom(&a)), Ty::usize()),
             (Ty::Str, "get", 1) if matches!(strip_paren(&m.args[0]), syn::Expr::Range(_)) => {
